@@ -204,6 +204,28 @@ def _validated_uses(m, ci, param: str) -> List[Tuple[str, Dict[str, Any], ast.AS
     return out
 
 
+def _truthiness_guards(node: ast.AST, stop: ast.AST, param: str) -> List[ast.AST]:
+    """Tests on the way from ``node`` up to ``stop`` (if statements, conditional expressions, and/or) that test the bare truthiness of ``param``."""
+    from ..loader import parent
+
+    def bare(t: ast.AST) -> bool:
+        if isinstance(t, ast.UnaryOp) and isinstance(t.op, ast.Not):
+            return bare(t.operand)
+        if isinstance(t, ast.BoolOp):
+            return any(bare(v) for v in t.values)
+        return isinstance(t, ast.Name) and t.id == param
+
+    out: List[ast.AST] = []
+    cur, prev = parent(node), node
+    while cur is not None and cur is not stop:
+        if isinstance(cur, (ast.If, ast.IfExp, ast.While)) and prev is not cur.test and bare(cur.test):
+            out.append(cur.test)
+        if isinstance(cur, ast.BoolOp) and any(bare(v) for v in cur.values if v is not prev):
+            out.append(cur)
+        prev, cur = cur, parent(cur)
+    return out
+
+
 def _check_validators(rep: Report, rule: str, m) -> None:
     prog, norm = m.prog, m.norm
     for (mod, cname), spec in SPECS.items():
@@ -228,6 +250,21 @@ def _check_validators(rep: Report, rule: str, m) -> None:
                         earlier = [u for u in good if u[2].lineno < node.lineno]
                         if not earlier:
                             raw.append((fld, node))
+            # a validator that must reject zero has to run whenever the parameter is supplied: a truthiness test on the parameter
+            # ('x if param else default', 'if param:') treats a supplied 0 like 'not supplied' and skips the rejection
+            if kwreq.get("non_zero") is True or validator.endswith(("type_check_exchange", "type_check_holder", "type_check_asset")):
+                for u in good:
+                    tests = _truthiness_guards(u[2], init.node, param)
+                    rep.check(
+                        not tests,
+                        rule,
+                        mod,
+                        init.qualname,
+                        f"{cname}.{param}: the validator runs for every supplied value (guard is 'is None', not truthiness)",
+                        f"the validation of '{param}' in {cname}.__init__ is reached only when {[short(t, 60) for t in tests]} is truthy: a supplied value of 0 (or an empty string) is then treated as 'not supplied' and silently "
+                        f"replaced by a computed default instead of being rejected by {need}",
+                        loc(u[2]),
+                    )
             rep.check(not raw, rule, mod, init.qualname, f"{cname}.{param} is stored only after validation", f"field(s) {[f for f, _ in raw]} of {cname} are assigned from the raw parameter '{param}' before/without validation", loc(raw[0][1]) if raw else loc(init.node))
     # amount validators that depend on the type (case split)
     inn = prog.cls("rp2.in_transaction", "InTransaction")
